@@ -528,6 +528,11 @@ class _MType:
     """
     __slots__ = ()
 
+    def __reduce__(self):
+        # M is recognised by identity: copies and pickles of a spec
+        # refer to the one M
+        return 'M'
+
     def __call__(self, spec):
         """wrap a sub-spec in order to apply comparison operators to the result"""
         if not isinstance(spec, type(T)):
